@@ -980,6 +980,16 @@ class Translator:
                 return (v, "vec")
             return ("(map (fun %s => %s) %s)" % (xv.g, body, src), "vec")
         if name in ("clone", "to_owned", "to_vec") and not args: return self.ex(recv, env, B)
+        if name == "position" and len(args) == 1 and recv[0] == "mcall" and recv[2] == "iter" and not recv[3]:
+            # v.iter().position(|x| *x == value): the first index whose element equals value (find_first of Model/Vector.v)
+            clo = args[0]
+            ok = clo[0] == "closure" and len(clo[1]) == 1 and clo[1][0][0] == "pvar" and clo[2][0] == "bin" and clo[2][1] == "==" \
+                 and strip(clo[2][2]) == ("var", clo[1][0][1])
+            src, ts = self.ex(recv[1], env, B)
+            if not ok or ts != "vec": self.bad(".iter().position(..) whose predicate is not `|x| *x == <value>`")
+            val, tv = self.ex(clo[2][3], env, B)
+            if tv != "elem": self.bad(".iter().position(|x| *x == v) with v of type %s" % (tv,))
+            return ("(find_first %s %s 0)" % (src, val), ("opt", "usize"))
         if name == "unwrap" and not args and recv[0] == "mcall" and recv[2] == "join" and not recv[3]:
             # handle.join().unwrap(): the value the worker returned; a worker that panicked makes join() an Err
             h, th = self.ex(recv[1], env, B)
@@ -1030,6 +1040,8 @@ class Translator:
             if ty == "lit": t = self.lit(t, "lit", pty or "usize"); ty = pty or "usize"
             if pty is not None and ty != pty: self.bad("argument of `.%s` has type %s, the call table expects %s" % (name, ty, pty))
             avals.append(t)
+        for k_, txt in ent.get("require", {}).items():
+            if avals[k_] != txt: self.bad("argument %d of `.%s` must be %s (the call table has no other reading)" % (k_, name, txt))
         outs = ent.get("out", ["ret"])
         t = ent["g"].format(r, *avals)
         for kname in ent.get("kills", []):
@@ -1265,6 +1277,18 @@ class Translator:
         if e[0] == "ret_expr":
             if e[1] is None: return self.ctx.ret(env, None)
             B = []; v = self.ex(e[1], env, B); return wrap(B, self.ctx.ret(env, v))
+        if e[0] == "match":
+            # match <option> { Some(x) => <expr | return expr>, None => <expr | return expr> } in tail position
+            B = []
+            sc, ts = self.ex(e[1], env, B)
+            arms = e[2]
+            some = [a for a in arms if a[0][0] == "pctor" and a[0][1] == "Some" and a[0][2][0] == "pvar"]
+            none = [a for a in arms if a[0][0] == "pvar" and a[0][1] in ("None", "_")]
+            if not (isinstance(ts, tuple) and ts[0] == "opt") or len(arms) != 2 or len(some) != 1 or len(none) != 1:
+                self.bad("`match` in tail position that is not Some(x) / None on an Option")
+            env_s, xv = env.declare(some[0][0][2][1], self.gname(some[0][0][2][1]), ts[1])
+            return wrap(B, ("match", sc, [("Some %s" % xv.g, self.tail_expr(some[0][1], env_s, k)),
+                                          ("None", self.tail_expr(none[0][1], env, k))]))
         B = []
         if e[0] == "mcall": v = self.mcall(e, env, B, stmt=True)
         else: v = self.ex(e, env, B)
